@@ -57,8 +57,9 @@ func workerSearch(results []interface{}, ctrChanged chan<- struct{}, f func(int)
 		i := atomic.AddInt64(ctr, -1)
 		if i >= 0 {
 			results[i] = res
+			// only stored results are announced: the caller counts exactly count of them
+			ctrChanged <- struct{}{}
 		}
-		ctrChanged <- struct{}{}
 	}
 }
 
@@ -135,7 +136,8 @@ func (p *Pool) Search(count int, f func() interface{}) []interface{} {
 	results := make([]interface{}, count)
 
 	ctr := int64(count)
-	ctrChanged := make(chan struct{})
+	// buffered, so that a worker never blocks on a notification the caller no longer waits for
+	ctrChanged := make(chan struct{}, count)
 	cmd := command{
 		search:     true,
 		ctr:        &ctr,
@@ -144,14 +146,17 @@ func (p *Pool) Search(count int, f func() interface{}) []interface{} {
 		results:    results,
 	}
 	cmdI := 0
+	// the number of stored results announced so far
+	stored := 0
 	for cmdI < p.workerCount {
 		select {
 		case p.commands <- cmd:
 			cmdI++
 		case <-ctrChanged:
+			stored++
 		}
 	}
-	for atomic.LoadInt64(&ctr) > 0 {
+	for ; stored < count; stored++ {
 		<-ctrChanged
 	}
 
@@ -169,7 +174,8 @@ func (p *Pool) Parallelize(count int, f func(int) interface{}) []interface{} {
 	results := make([]interface{}, count)
 
 	ctr := int64(count)
-	ctrChanged := make(chan struct{})
+	// buffered, so that a worker never blocks on a notification the caller no longer waits for
+	ctrChanged := make(chan struct{}, count)
 	cmdI := 0
 	for cmdI < count {
 		cmd := command{
